@@ -798,3 +798,56 @@ Proof. vm_compute. reflexivity. Qed.
 
 Lemma Facts_ok_plumbing : view_option_plumbing_ok = true.
 Proof. vm_compute. reflexivity. Qed.
+
+(* ------------------------------------------------------------------ round 7: the setting is read when the request is checked *)
+Lemma origin_history_s_const pr settings caller allow rs :
+  origin_history_s pr caller allow (map (fun r => (settings, r)) rs) = origin_history pr settings caller allow rs.
+Proof.
+  revert caller. induction rs as [|r rs IH]; intros caller; [reflexivity|].
+  cbn [map origin_history_s origin_history].
+  destruct (check_csrf_origin_p pr settings caller allow r) as [v c']. rewrite IH. reflexivity.
+Qed.
+
+(* every verdict of a sequence is the single-check verdict for that request and the settings in force AT THAT CHECK:
+   neither earlier requests nor earlier values of the setting have any influence *)
+Lemma settings_history_independent_p pr caller allow rs :
+  p_copies pr = true \/ caller = None ->
+  origin_history_s pr caller allow rs =
+  (map (fun sr => fst (check_csrf_origin_p pr (fst sr) caller allow (snd sr))) rs, caller).
+Proof.
+  intros H. induction rs as [|[s r] rs IH]; [reflexivity|].
+  cbn [origin_history_s map fst snd].
+  pose proof (caller_list_unchanged pr s caller allow r H) as Hs.
+  destruct (check_csrf_origin_p pr s caller allow r) as [v c']. cbn [fst snd] in *. subst c'.
+  rewrite IH. reflexivity.
+Qed.
+
+Lemma settings_history_independent st caller allow rs :
+  origin_history_s (the_params st) caller allow rs =
+  (map (fun sr => fst (check_csrf_origin_p (the_params st) (fst sr) caller allow (snd sr))) rs, caller).
+Proof. apply settings_history_independent_p. left. apply the_params_ok. Qed.
+
+(* the wrapper's verdict under changed settings is the gate for the settings in force now *)
+Lemma gate_under_current_settings c s r :
+  wf_tokens (with_settings c s) r = true ->
+  (view_outcome (with_settings c s) r = Ran <-> spec_runs (with_settings c s) r = true).
+Proof. apply csrf_gate. Qed.
+
+(* only the origin clause reads the setting: options, enabling, token comparison are untouched by it *)
+Lemma settings_only_feed_origin_check c s r :
+  effective (with_settings c s) = effective c /\ checks_apply (with_settings c s) r = checks_apply c r /\
+  wf_tokens (with_settings c s) r = wf_tokens c r.
+Proof. repeat split. Qed.
+
+(* a trusted origin that has been revoked is refused from the next request on (and one that was added is accepted) *)
+Lemma revoked_origin_refused pr c s r :
+  checks_apply c r = true -> o_check_origin (effective c) = true ->
+  spec_origin_ok s None (o_allow_no_origin (effective c)) r = false ->
+  view_outcome_p pr (with_settings c s) r <> Ran.
+Proof.
+  intros Hck Hco Hno Hr. apply body_never_runs_on_failure in Hr.
+  unfold spec_runs in Hr. rewrite <- checks_apply_is_checked in Hr.
+  change (checks_apply (with_settings c s) r) with (checks_apply c r) in Hr. rewrite Hck in Hr.
+  rewrite <- !effective_is_spec in Hr. change (effective (with_settings c s)) with (effective c) in Hr.
+  rewrite Hco in Hr. cbn [c_settings with_settings] in Hr. rewrite Hno in Hr. discriminate.
+Qed.
